@@ -47,4 +47,25 @@ theorem invS_step (C : List Feature) (O : Oracle) (script : List Peer) (c : Conf
     | (intro _; exact h1 _ (by simp_all))
     | skip
 
+/-! ### invariant U: the call only hangs while its deadline has not been moved -/
+
+/-- `hung wr` is only entered from a blocked read / write whose deadline the context watcher has
+not moved into the past: the context is not done, or the watcher does not move that deadline -/
+structure InvU (O : Oracle) (c : Conf) : Prop where
+  hung : ∀ wr, c.pc = .hung wr → (O.cancel c.tr && (if wr then O.dlWr else O.dlRd)) = false
+  /-- a blocked control point is a read exactly for the read operations -/
+  kind : ∀ op, c.pc = .blocked op → ∃ rest, c.tr = .blocked op :: rest
+
+theorem invU_step (C : List Feature) (O : Oracle) (c : Conf) (h : InvU O c) : InvU O (step C O c) := by
+  obtain ⟨h1, h2⟩ := h
+  step_all
+  all_goals (constructor <;> (try dsimp only))
+  all_goals first
+    | exact h1
+    | exact h2
+    | (intro _ h; cases h; done)
+    | (intro _ h; cases h; exact ⟨_, rfl⟩)
+    | (intro _ h; cases h; simp_all; done)
+    | skip
+
 end XmppModel.Negotiate
